@@ -1,7 +1,7 @@
 (* C06 - pinned statements (cardinality estimator of SetSketch).  card_of_sum is the expression
    found, identically, in get_cardinal_stats and in the parallel get_cardinal_estimate. *)
-From Coq Require Import Reals List.
-From PMH Require Import Gen.SetSketchFormulas Proofs.SetFormulas Gen.SetSketchLaw Proofs.SetLaw Proofs.FloatSum Gen.SetFormulasSrc Proofs.SetFormulasSrc.
+From Coq Require Import Reals List ZArith.
+From PMH Require Import Gen.SetSketchFormulas Proofs.SetFormulas Gen.SetSketchLaw Proofs.SetLaw Proofs.FloatSum Lib.ListArr Model.SetSketch Proofs.SetSketch Proofs.CardModel Gen.SetFormulasSrc Proofs.SetFormulasSrc.
 Import ListNotations.
 Open Scope R_scope.
 
@@ -69,6 +69,18 @@ Theorem C06_source_register_law_is_the_proved_law : forall a m j lnb x, 0 < a ->
   ss_gap_src a m j = ss_gap a m j /\ ss_reg_real_src lnb x = ss_reg_real lnb x.
 Proof. intros a m j lnb x Ha Hj Hl. exact (conj (ss_gap_src_ok a m j Ha Hj) (ss_reg_real_src_ok lnb x Hl)). Qed.
 
+(* the monotonicity clause closed on the model of the sketcher: from any state satisfying the invariant of C05, streaming an item
+   or merging another sketch never lowers the estimate computed from the registers (register theorems of C05 + card_monotone) *)
+Theorem C06_item_never_lowers_estimate : forall b a m s sc s', 1 < b -> 0 < a -> 0 < m ->
+  ssinv s -> (1 <= sp_m (ss_par s))%nat -> ss_item s sc = Ok s' ->
+  model_estimate b a m s <= model_estimate b a m s'.
+Proof. exact item_never_lowers_estimate. Qed.
+
+Theorem C06_merge_never_lowers_estimate : forall b a m s o, 1 < b -> 0 < a -> 0 < m ->
+  ssinv s -> ssinv o -> (1 <= sp_m (ss_par s))%nat -> sp_imax (ss_par s) = sp_imax (ss_par o) ->
+  model_estimate b a m s <= model_estimate b a m (fst (ss_merge s o)).
+Proof. exact merge_never_lowers_estimate. Qed.
+
 Print Assumptions C06_card_monotone.
 Print Assumptions C06_sequential_and_any_parallel_sum_agree.
 Print Assumptions C06_any_sum_tree_is_accurate.
@@ -81,3 +93,5 @@ Print Assumptions C06_register_antitone.
 Print Assumptions C06_source_estimators_are_the_proved_estimator.
 Print Assumptions C06_source_spread_is_the_advertised_spread.
 Print Assumptions C06_source_register_law_is_the_proved_law.
+Print Assumptions C06_item_never_lowers_estimate.
+Print Assumptions C06_merge_never_lowers_estimate.
